@@ -1,3 +1,4 @@
 SPECIFICATION Spec
 CONSTANTS Conns = {c1}  Burst = 1  R = 1  Chunk = 1  Horizon = 0  PerConn = FALSE  NoWait = FALSE
+  MaxWait = 0
 CHECK_DEADLOCK FALSE
